@@ -335,6 +335,16 @@ def d_v2(ctx):
                     ctx.check("C02.d.flag-writer", rel, f.name, s.text, False,
                               "flow '%s' sets the re-entrancy flag outside the runner: bot messages are uttered unchecked while it is set" % f.name, line=s.line)
     ctx.check("C02.d.flag-writer", runner.file, runner.name, "single writer", True, "only '%s' sets %s" % (runner.name, sorted(flags)))
+    # scope of the flag: `_bot_say` instances run concurrently (and-groups, several flows reacting to one event);
+    # a flag that ONE instance sets and ANOTHER instance tests lets the second skip its rails
+    for fl in sorted(flags):
+        decl = [s for s in say.walk() if s.kind == "global" and s.target == fl]
+        tested = any(s.kind == "if" and any(c and ("$" + fl) in c for c, _ in s.branches) for s in say.walk())
+        if tested:
+            ctx.check("C02.d.flag-scope", say.file, say.name, decl[0].text if decl else "$" + fl, not decl,
+                      "the skip test in '%s' uses a flag private to the instance" % say.name if not decl else
+                      "the skip test in '%s' reads the GLOBAL `$%s`: while the output rails of one bot message run, every concurrently running `%s` instance sees the flag set and utters its text unchecked" % (
+                          say.name, fl, say.name), line=(decl[0].line if decl else say.line))
     # sibling with core _bot_say: same globals, same utterance
     cf = core.get(say.name)
     if cf is not None:
